@@ -212,6 +212,23 @@ def history_sequences(seed, n):
 
 
 # ------------------------------------------------------------------------------------------------
+def regen_gen():
+    """regenerate coq/Gen/MMPrintSlice.v from the CURRENT ast.py / metamath_extract_slice.py (fail closed)"""
+    import sys
+    sys.path.insert(0, os.path.join(C.VERIF, 'translators'))
+    import importlib
+    import mm_print_slice
+    importlib.reload(mm_print_slice)
+    try:
+        text = mm_print_slice.generate(C.REPO)
+        C.write_if_changed(os.path.join(C.COQ, 'Gen', 'MMPrintSlice.v'), text)
+        return True, ''
+    except SystemExit as e:
+        return False, str(e)
+    except Exception as e:  # noqa: BLE001
+        return False, f'mm_print_slice: {e!r}'
+
+
 def run(tier, seed):
     R = C.Report(CID, tier, seed)
     rng = C.rng_for(seed, CID)
@@ -219,7 +236,12 @@ def run(tier, seed):
     t0 = time.time()
 
     # ---- 1. proof stage
+    ok_tr, tr_msg = regen_gen()
     P = R.proof_stage()
+    if not ok_tr:
+        P['ok'] = False
+        P['log'] = 'translator failed closed: ' + tr_msg
+        P['discharged'] = 0     # the regenerated model could not be produced: nothing is proved about the current source
     proof_broken = not P['ok']
     R.assumptions = P.get('assumptions', [])
 
@@ -551,6 +573,10 @@ def run(tier, seed):
                           'layouts with comments, token-mutated streams, arbitrary ASTs; distinct = distinct token list / AST; '
                           'non-trivial = parsed with > 8 tokens, wf AST with > 6 tokens, database with >= 1 slice')
     return R.finish(level='proof', trusted_base=C.TRUSTED_COMMON + [
+        'translators/mm_print_slice.py (fail-closed Python-ast translator: Encoder postvisit_* methods, get_metavariables methods, '
+        'construct_axiom, deconstruct_provable, supporting_database_for_provable, slice_database -> coq/Gen/MMPrintSlice.v) and the '
+        'library coq/MM17/GenLib.v it targets (norm = lexer view of the write calls; sets as lists; exceptions as None; primitives '
+        'statements_get_constants/get_constants, deconstruct_compressed_proof, match_axiom tied differentially only)',
         'lark lexer/LALR driver not modelled: the model starts at the token list produced by the real lexer; grammar modelled by '
         'recursive descent and validated by correspondence',
         'harness/mm17_fmt.layout (Encoder blank/newline/indent layout as a function of the token list), compared character-wise',
